@@ -177,6 +177,7 @@ def __calculate_equities_0(
     assert len(board_cards) == board_dealing_count
 
     equities = [0.0] * len(hole_cards)
+    hand_type_statuses = []
 
     for hand_type in hand_types:
         hands = list(
@@ -186,8 +187,14 @@ def __calculate_equities_0(
             ),
         )
         max_hand = max_or_none(hands)
-        statuses = list(map(partial(eq, max_hand), hands))
-        increment = 1 / (len(hand_types) * sum(statuses))
+
+        if max_hand is not None:
+            hand_type_statuses.append(
+                list(map(partial(eq, max_hand), hands)),
+            )
+
+    for statuses in hand_type_statuses:
+        increment = 1 / (len(hand_type_statuses) * sum(statuses))
 
         for i, status in enumerate(statuses):
             if status:
